@@ -167,7 +167,7 @@ def generate(ctx, fx, fxpath):
         groups[k] = out
         if k == 2:
             ctx.cov["tempting_strata"] = len(names)
-    caps = {0: 10 ** 9, 1: 220, 2: 380, 3: 80} if quick else {0: 10 ** 9, 1: 5000, 2: 9000, 3: 3000}
+    caps = {0: 10 ** 9, 1: 220, 2: 380, 3: 80} if quick else {0: 10 ** 9, 1: 4000, 2: 7000, 3: 2500}
     sel = []
     for k in sorted(groups):
         sel += groups[k][:caps[k]]
